@@ -28,6 +28,7 @@ const (
 	xArr
 	xAny // any JSON value (reflected payloads)
 	xComplex // a string "<re><+ unless im is negative or NaN><im>i" whose two parts are the given floats
+	xLevel   // the level's documented text under built-in level encoder number bits (2 lowercase, 3 capital, 4/5 the same in colour)
 )
 
 type vExp struct {
@@ -111,6 +112,12 @@ func vMatch(where string, got *vrt.JVal, want *vExp) {
 			return
 		}
 		vrt.Assert(where+":complex-parts-recoverable", vComplexMatches(got.Str, want.re, want.im, want.bits))
+	case xLevel:
+		if got.Kind != vrt.JStr {
+			vrt.Fail(where + ":level-as-string")
+			return
+		}
+		vrt.Assert(where+":level-recoverable-from-its-documented-text", vLevelMatches(got.Str, Level(want.i), want.bits))
 	case xAnyNum:
 		vrt.Assert(where+":some-number", got.Kind == vrt.JNum)
 	case xAny:
@@ -166,6 +173,44 @@ func vNumIsInt(num []byte, v int64) bool {
 	}
 	p, err := strconv.ParseInt(string(num), 10, 64)
 	return err == nil && p == v
+}
+
+// vLevelMatches: the documented text of a level under the built-in level encoders, written down independently:
+// the seven named levels by name (all-caps for the capital encoders), any other value as Level(N) / LEVEL(N),
+// and for the colour encoders wrapped in ESC[<colour>m ... ESC[0m with magenta debug, blue info, yellow warn and
+// red for everything else.
+func vLevelMatches(s []byte, lvl Level, enc int) bool {
+	capital := enc == 3 || enc == 5
+	colour := enc == 4 || enc == 5
+	prefix, suffix := "", ""
+	if colour {
+		code := "31"
+		switch lvl {
+		case DebugLevel:
+			code = "35"
+		case InfoLevel:
+			code = "34"
+		case WarnLevel:
+			code = "33"
+		}
+		prefix, suffix = "\x1b["+code+"m", "\x1b[0m"
+	}
+	if lvl >= DebugLevel && lvl <= FatalLevel {
+		name := []string{"debug", "info", "warn", "error", "dpanic", "panic", "fatal"}[lvl-DebugLevel]
+		if capital {
+			name = []string{"DEBUG", "INFO", "WARN", "ERROR", "DPANIC", "PANIC", "FATAL"}[lvl-DebugLevel]
+		}
+		return string(s) == prefix+name+suffix
+	}
+	open := "Level("
+	if capital {
+		open = "LEVEL("
+	}
+	head, tail := prefix+open, ")"+suffix
+	if len(s) < len(head)+len(tail)+1 || string(s[:len(head)]) != head || string(s[len(s)-len(tail):]) != tail {
+		return false
+	}
+	return vNumIsInt(s[len(head):len(s)-len(tail)], int64(lvl))
 }
 
 func vNumIsUint(num []byte, v uint64) bool {
